@@ -27,6 +27,10 @@ func c07(c *Ctx) {
 	c01R6(c)
 	c01R8(c)
 	c07R6(c)
+	// an ADD that fails after the pool handed out an address gives it back (shared rule C04.R4), and
+	// the watermark band the balancer works towards is well-formed (shared rule C19.R2)
+	c04R4(c)
+	c19R2(c)
 }
 
 // R6: the pool sync always looks at the surplus. The trimming half of
